@@ -714,8 +714,24 @@ func (x *Exec) hbAtomic(c *Cell) {
 func (x *Exec) syslogStub(fn *ssa.Function, name string, args []Val, site string) (Val, bool) {
 	switch name {
 	case "github.com/go-kid/ioc/syslog.Pref":
-		x.stubsUsed["syslog (no-op logging)"] = true
-		return IfaceV{T: x.w.loggerType, V: PtrV{}}, true
+		// one logger object per prefix (as the real package caches them), logging itself is a no-op
+		x.stubsUsed["syslog (no-op logging; Pref returns one logger object per prefix)"] = true
+		key := x.showVal(args[0])
+		if sv, ok := args[0].(StrV); ok {
+			if c, ok := sv.concrete(); ok {
+				key = "c:" + c
+			}
+		}
+		if x.loggers == nil {
+			x.loggers = map[string]*Cell{}
+		}
+		c, ok := x.loggers[key]
+		if !ok {
+			lt := x.w.loggerType.(*types.Pointer).Elem()
+			c = &Cell{V: x.zero(lt)}
+			x.loggers[key] = c
+		}
+		return IfaceV{T: x.w.loggerType, V: PtrV{C: c}}, true
 	case "github.com/go-kid/ioc/syslog.New":
 		return IfaceV{T: x.w.loggerType, V: PtrV{}}, true
 	case "(*github.com/go-kid/ioc/syslog.logger).Panic", "(*github.com/go-kid/ioc/syslog.logger).Panicf":
